@@ -345,6 +345,14 @@ ShouldNotify(r) ==
   /\ lastChecked' = availIdx
   /\ UNCHANGED <<cfg, availIdx, lastUsed, held, op, dmemVars, vmemVars, shared, devVars>>
 
+\* should_notify was called and its result is not logged (driver-owned queues): the verdict is
+\* what the driver must do next - see VirtQueueTrace!pn
+ShouldNotifyCalled ==
+  /\ op = NoOp
+  /\ lastChecked' = availIdx
+  /\ UNCHANGED <<cfg, availIdx, lastUsed, held, op, dmemVars, vmemVars, shared, devVars>>
+NotifyVerdict == IF MustNotify THEN "must" ELSE IF ~cfg.eventIdx THEN "mustnot" ELSE "free"
+
 \* C05, device -> driver direction without event index
 SetDevNotifyCall(enable) ==
   /\ op = NoOp
